@@ -100,9 +100,16 @@ def main():
     ap.add_argument("--tests", action="store_true")
     ap.add_argument("--seeded", action="store_true")
     ap.add_argument("--all-props", action="store_true", help="run every check against each mutant (false-alarm cross check)")
+    ap.add_argument("--refactors", action="store_true", help="run the behaviour-preserving refactorings under /verif/refactors/*/patch.diff: every check must stay silent")
     args = ap.parse_args()
     jobs = []
-    if args.seeded:
+    if args.refactors:
+        root = os.path.join(VERIF, "refactors")
+        for d in sorted(os.listdir(root)):
+            if os.path.exists(os.path.join(root, d, "patch.diff")):
+                mj = json.load(open(os.path.join(root, d, "meta.json")))
+                jobs.append({"id": d, "props": ["C%02d" % i for i in range(1, 21)], "kind": "seeded", "patch": os.path.join(root, d, "patch.diff"), "desc": mj.get("summary"), "control": True})
+    elif args.seeded:
         root = os.path.join(VERIF, "seeded")
         for d in sorted(os.listdir(root)):
             meta = os.path.join(root, d, "meta.json")
@@ -134,7 +141,7 @@ def main():
             if "tests_pass" in r:
                 extra = " [builds=%s tests_pass=%s]" % (r.get("builds"), r.get("tests_pass"))
             print("%-32s %s%s  (%ss)" % (r["id"], status, extra, r.get("wall_s")), flush=True)
-    out = os.path.join(HERE, "results_seeded.json" if args.seeded else "results.json")
+    out = os.path.join(HERE, "results_refactors.json" if args.refactors else ("results_seeded.json" if args.seeded else "results.json"))
     prev = {}
     if os.path.exists(out) and args.only:
         prev = {r["id"]: r for r in json.load(open(out))}
